@@ -331,7 +331,30 @@ func (e *c20Env) observeP(objs []*c20PObj, idx map[*message.Message]int, m *mess
 	return o
 }
 
+// Delay values built at the start of the run; by the time the publisher cases stamp them at least
+// 1.1 s have passed (a Delay kept in a context / returned by a caching generator is stamped later than
+// it was built; the stamp must not depend on the clock at stamping time)
+var c20OldDelays []delay.Delay
+var c20OldAt time.Time
+var c20OldPicks int
+
+func c20BuildOldDelays(rng *rand.Rand) {
+	c20OldAt = time.Now()
+	c20OldDelays = nil
+	for i := 0; i < 24; i++ {
+		c20OldDelays = append(c20OldDelays, c20FreshDelay(rng))
+	}
+}
+
 func c20RandDelay(rng *rand.Rand) delay.Delay {
+	if len(c20OldDelays) > 0 && rng.Intn(2) == 0 {
+		c20OldPicks++
+		return c20OldDelays[rng.Intn(len(c20OldDelays))]
+	}
+	return c20FreshDelay(rng)
+}
+
+func c20FreshDelay(rng *rand.Rand) delay.Delay {
 	switch rng.Intn(10) {
 	case 0:
 		return delay.Delay{} // zero value
@@ -674,6 +697,11 @@ type c20Sub struct {
 	closes   int
 	closeErr error
 	subErr   error
+	// a graceful Close: hands out these messages, waits until they are settled, only then ends the subscription
+	drain      []*message.Message
+	sent       []chan struct{}
+	drainStuck string
+	drainWait  time.Duration
 }
 
 func newC20Sub() *c20Sub { return &c20Sub{ch: make(chan *message.Message), done: make(chan struct{})} }
@@ -689,6 +717,21 @@ func (s *c20Sub) Close() error {
 	defer s.mu.Unlock()
 	s.closes++
 	if s.closes == 1 {
+	drainLoop:
+		for j, m := range s.drain {
+			select {
+			case s.ch <- m:
+				close(s.sent[j])
+			case <-time.After(s.drainWait):
+				s.drainStuck = "the wrapped subscriber could not hand out a message during its Close"
+				break drainLoop
+			}
+		}
+		for _, m := range s.drain {
+			if s.drainStuck == "" && script.WaitSettled(m, s.drainWait) == 0 {
+				s.drainStuck = "a message handed out by the wrapped subscriber during its Close was never settled"
+			}
+		}
 		close(s.done)
 		close(s.ch)
 	}
@@ -822,11 +865,27 @@ func (e *c20Env) runSubCase(rng *rand.Rand) *c20SubCase {
 	if closeAt >= nops {
 		ops = append(ops, []interface{}{"c"})
 	}
-	if rng.Intn(4) == 0 {
-		ops = append(ops, []interface{}{"s", rng.Intn(nobj), rng.Intn(2) == 0}) // settle after Close
-	}
-	if rng.Intn(6) == 0 {
-		ops = append(ops, []interface{}{"c"})
+	if rng.Intn(3) == 0 {
+		// the first Close is a draining one: it hands out objects that are still unsettled (so the wrapped
+		// subscriber really waits for the consumer) and ends the subscription only when they are settled
+		settled := map[int]bool{}
+		for k, op := range ops {
+			if op[0] == "s" {
+				settled[op[1].(int)] = true
+			}
+			if op[0] == "c" {
+				items := [][]interface{}{}
+				for _, i := range rng.Perm(nobj) {
+					if !settled[i] && len(items) < 3 && (len(items) == 0 || rng.Intn(2) == 0) {
+						items = append(items, []interface{}{i, rng.Intn(3) != 0})
+					}
+				}
+				if len(items) > 0 {
+					ops[k] = []interface{}{"d", items}
+				}
+				break
+			}
+		}
 	}
 	c.Ops = ops
 	received := map[int]*message.Message{}
@@ -872,6 +931,70 @@ func (e *c20Env) runSubCase(rng *rand.Rand) *c20SubCase {
 			} else {
 				c.Rets = append(c.Rets, m.Nack())
 			}
+		case "d":
+			items := op[1].([][]interface{})
+			tmo := 6 * time.Second
+			if c20SlowWaits >= 3 {
+				tmo = 300 * time.Millisecond
+			}
+			inner.drainWait = tmo
+			for _, it := range items {
+				inner.drain = append(inner.drain, objs[it[0].(int)])
+				inner.sent = append(inner.sent, make(chan struct{}))
+			}
+			done := make(chan error, 1)
+			go func() { done <- sub.Close() }()
+			for j, it := range items {
+				select {
+				case got, ok := <-out:
+					if !ok {
+						c20SlowWaits++
+						c.Problem = "decorated channel closed before everything the wrapped subscriber handed out during its Close was delivered"
+						return c
+					}
+					gi, known := idx[got]
+					if !known {
+						gi = 9999
+					} else {
+						received[gi] = got
+						delivered[gi] = true
+					}
+					c.Out = append(c.Out, []interface{}{gi, e.rest(got), c20Trail(got.Metadata)})
+				case <-time.After(tmo):
+					c20SlowWaits++
+					c.Problem = "a message the wrapped subscriber handed out during its Close never reached the consumer"
+					return c
+				}
+				if j+1 < len(items) && len(shape) > 0 {
+					// a busy consumer: the next message is already with the pump while nobody reads
+					select {
+					case <-inner.sent[j+1]:
+					case <-time.After(2 * time.Second):
+					}
+					time.Sleep(time.Millisecond)
+				}
+				m := objs[it[0].(int)]
+				if r, ok := received[it[0].(int)]; ok {
+					m = r
+				}
+				if it[1].(bool) {
+					c.Rets = append(c.Rets, m.Ack())
+				} else {
+					c.Rets = append(c.Rets, m.Nack())
+				}
+			}
+			select {
+			case err := <-done:
+				c.CloseRet = append(c.CloseRet, []interface{}{e.err(inner.closeErr), e.err(err)})
+			case <-time.After(tmo + 10*time.Second):
+				c.Problem = "Close of the decorated subscriber did not return"
+				return c
+			}
+			if inner.drainStuck != "" {
+				c.Problem = inner.drainStuck
+				return c
+			}
+			closed = true
 		default:
 			done := make(chan error, 1)
 			go func() { done <- sub.Close() }()
@@ -1242,13 +1365,19 @@ func cmdC20(args []string) error {
 	rng := rand.New(rand.NewSource(*seed))
 	e := newC20Env()
 	res := map[string]interface{}{}
-	pubs := []*c20PubCase{}
-	for i := 0; i < *n; i++ {
-		pubs = append(pubs, e.runPubCase(rng, i%5 == 4))
-	}
+	c20BuildOldDelays(rng)
 	subs := []*c20SubCase{}
 	for i := 0; i < *n; i++ {
 		subs = append(subs, e.runSubCase(rng))
+	}
+	if rest := 1100*time.Millisecond - time.Since(c20OldAt); rest > 0 {
+		time.Sleep(rest)
+	}
+	res["old_delay_age_ms"] = time.Since(c20OldAt).Milliseconds()
+
+	pubs := []*c20PubCase{}
+	for i := 0; i < *n; i++ {
+		pubs = append(pubs, e.runPubCase(rng, i%5 == 4))
 	}
 	mws := []*c20MwCase{}
 	for i := 0; i < *n/6+4; i++ {
@@ -1263,6 +1392,7 @@ func cmdC20(args []string) error {
 	res["sub"] = subs
 	res["mw"] = mws
 	res["delay"] = c20DelayCases(rng, *n)
+	res["old_delay_picks"] = c20OldPicks
 	res["glue"] = e.glue()
 	res["strings"] = e.in.Tab
 	return writeJSON(*out, res)
